@@ -130,9 +130,9 @@ Proofs/SchedFinal.vos Proofs/SchedFinal.vok Proofs/SchedFinal.required_vos: Proo
 Properties/C05.vo Properties/C05.glob Properties/C05.v.beautified Properties/C05.required_vo: Properties/C05.v Model/Sched.vo Proofs/SchedProof.vo Proofs/SchedFinal.vo
 Properties/C05.vio: Properties/C05.v Model/Sched.vio Proofs/SchedProof.vio Proofs/SchedFinal.vio
 Properties/C05.vos Properties/C05.vok Properties/C05.required_vos: Properties/C05.v Model/Sched.vos Proofs/SchedProof.vos Proofs/SchedFinal.vos
-Properties/C06.vo Properties/C06.glob Properties/C06.v.beautified Properties/C06.required_vo: Properties/C06.v Model/Sched.vo Proofs/SchedProof.vo Proofs/SchedFinal.vo
-Properties/C06.vio: Properties/C06.v Model/Sched.vio Proofs/SchedProof.vio Proofs/SchedFinal.vio
-Properties/C06.vos Properties/C06.vok Properties/C06.required_vos: Properties/C06.v Model/Sched.vos Proofs/SchedProof.vos Proofs/SchedFinal.vos
+Properties/C06.vo Properties/C06.glob Properties/C06.v.beautified Properties/C06.required_vo: Properties/C06.v Model/Sched.vo Model/Compressor.vo Proofs/SchedProof.vo Proofs/SchedFinal.vo Proofs/CompressorProof.vo
+Properties/C06.vio: Properties/C06.v Model/Sched.vio Model/Compressor.vio Proofs/SchedProof.vio Proofs/SchedFinal.vio Proofs/CompressorProof.vio
+Properties/C06.vos Properties/C06.vok Properties/C06.required_vos: Properties/C06.v Model/Sched.vos Model/Compressor.vos Proofs/SchedProof.vos Proofs/SchedFinal.vos Proofs/CompressorProof.vos
 Properties/C16.vo Properties/C16.glob Properties/C16.v.beautified Properties/C16.required_vo: Properties/C16.v Model/Sched.vo Proofs/SchedProof.vo
 Properties/C16.vio: Properties/C16.v Model/Sched.vio Proofs/SchedProof.vio
 Properties/C16.vos Properties/C16.vok Properties/C16.required_vos: Properties/C16.v Model/Sched.vos Proofs/SchedProof.vos
@@ -181,3 +181,6 @@ AsFound/C08.vos AsFound/C08.vok AsFound/C08.required_vos: AsFound/C08.v Model/Re
 AsFound/C07.vo AsFound/C07.glob AsFound/C07.v.beautified AsFound/C07.required_vo: AsFound/C07.v Model/Git.vo Properties/C07.vo
 AsFound/C07.vio: AsFound/C07.v Model/Git.vio Properties/C07.vio
 AsFound/C07.vos AsFound/C07.vok AsFound/C07.required_vos: AsFound/C07.v Model/Git.vos Properties/C07.vos
+AsFound/C06.vo AsFound/C06.glob AsFound/C06.v.beautified AsFound/C06.required_vo: AsFound/C06.v Model/Compressor.vo Properties/C06.vo
+AsFound/C06.vio: AsFound/C06.v Model/Compressor.vio Properties/C06.vio
+AsFound/C06.vos AsFound/C06.vok AsFound/C06.required_vos: AsFound/C06.v Model/Compressor.vos Properties/C06.vos
